@@ -62,16 +62,16 @@ Qed.
 
 Theorem rebase_exact_view cfg w e cmd um :
   cfg_ok cfg = true -> fs_ok cfg (wo_fs w) = true -> paths_distinct w = true ->
-  no_stale_tmp cfg (wo_fs w) cmd = true -> e_pretend e = false ->
+  e_pretend e = false ->
   let v := view_of_model cfg w e cmd um in
   match v_cmd v, v_res v with
   | CRebase a b0, ROk => C02.rebase_exact cfg (wo_fs w) (wo_fs (v_after v)) a b0
   | _, _ => true
   end = true.
 Proof.
-  intros Hcfg Hfs Hnd Hst Hnp v. subst v. rewrite view_model_eq. cbv zeta. cbn [v_cmd v_res v_after wo_fs].
+  intros Hcfg Hfs Hnd Hnp v. subst v. rewrite view_model_eq. cbv zeta. cbn [v_cmd v_res v_after wo_fs].
   destruct cmd; try reflexivity.
-  pose proof (rebase_exact_run e cfg um a b0 (start w) Hcfg Hfs Hnd Hst Hnp) as H.
+  pose proof (rebase_exact_run e cfg um a b0 (start w) Hcfg Hfs Hnd Hnp) as H.
   destruct (run_command e cfg um (CRebase a b0) (start w)) as [[r| | | |] s']; try reflexivity. exact H.
 Qed.
 
@@ -106,7 +106,7 @@ Proof.
   assert (Ee : v_env (view_of_model cfg w e cmd um) = e) by (rewrite view_model_eq; reflexivity).
   rewrite Ee. destruct (e_pretend e) eqn:Hp; [reflexivity|]. cbn [negb andb].
   destruct (e_fault e); [|reflexivity|reflexivity]. cbn [negb orb].
-  pose proof (rebase_exact_view cfg w e cmd um Hcfg Hfs Hpd Hst Hp) as H4. cbv zeta in H4.
+  pose proof (rebase_exact_view cfg w e cmd um Hcfg Hfs Hpd Hp) as H4. cbv zeta in H4.
   pose proof (rename_exact_view cfg w e cmd um Hcfg Hfs Hpd Hst Hp) as H5. cbv zeta in H5.
   assert (Ec : v_cmd (view_of_model cfg w e cmd um) = cmd) by (rewrite view_model_eq; reflexivity).
   rewrite Ec in *. destruct cmd; try reflexivity; [exact H5|exact H4].
@@ -120,10 +120,10 @@ Lemma frame_both : forall c f f',
 Proof. intros c f f' H1 H2. split; [now apply frame_lookup|now apply frame_forest_ok]. Qed.
 
 Lemma pretend_fs_unchanged_view : forall cfg w e cmd um,
-  names_distinct cfg w = true -> e_pretend e = true ->
+  names_distinct cfg w = true -> e_pretend e = true -> is_edit cmd = false ->
   wo_fs (v_after (view_of_model cfg w e cmd um)) = wo_fs w.
 Proof.
-  intros cfg w e cmd um Hnd Hp. rewrite view_model_eq. cbv zeta. cbn [v_after wo_fs].
-  exact (pretend_same cfg e um (start w) (C02LayersP.nodup_paths_NoDup _ Hnd) cmd Hp).
+  intros cfg w e cmd um Hnd Hp Hne. rewrite view_model_eq. cbv zeta. cbn [v_after wo_fs].
+  exact (pretend_same cfg e um (start w) (C02LayersP.nodup_paths_NoDup _ Hnd) cmd Hp Hne).
 Qed.
 
